@@ -6,7 +6,7 @@ Open Scope R_scope.
 (* adsorbate constants at the isotherm temperature; the mass densities are the molar ones times M
    (the consistency C20 establishes for backend adsorbates) *)
 Definition ads_l (M rml rmg : R) : adsorbate RNum :=
-  mkAds RNum None (Some M) (Some (rml * M)) (Some (rmg * M)) (Some rml) (Some rmg).
+  @ads_const RNum None (Some M) (Some (rml * M)) (Some (rmg * M)) (Some rml) (Some rmg).
 
 Lemma l_canon_phys_eq M rml rmg mat r : l_is_phys r = true -> l_canon M rml rmg mat r = l_canon_phys M rml rmg r.
 Proof. destruct r; simpl; congruence. Qed.
@@ -14,7 +14,7 @@ Proof. destruct r; simpl; congruence. Qed.
 (* 25 x 25 physical representations: the material labels are not consulted at all *)
 Lemma c_loading_factor_phys M rml rmg temp v bm um op (r1 r2 : lrep) :
   0 < M -> 0 < rml -> 0 < rmg -> l_is_phys r1 = true -> l_is_phys r2 = true ->
-  c_loading RNum v (l_basis r1) (l_basis r2) (l_unit r1) (l_unit r2) (mkAds RNum op (Some M) (Some (rml * M)) (Some (rmg * M)) (Some rml) (Some rmg)) temp bm um
+  c_loading RNum v (l_basis r1) (l_basis r2) (l_unit r1) (l_unit r2) (@ads_const RNum op (Some M) (Some (rml * M)) (Some (rmg * M)) (Some rml) (Some rmg)) temp bm um
   = Ok (spec_conv (l_canon_phys M rml rmg r1) (l_canon_phys M rml rmg r2) v).
 Proof.
   intros HM Hl Hg H1 H2. unfold spec_conv.
